@@ -3,8 +3,8 @@ with socket-less real Connection objects (real set_keyspace_async / send_msg / d
 import itertools, threading
 from vf import pool_harness as H
 
-OUTCOMES = ['ok', 'invalid', 'connerr', 'noconn', 'shut', 'same', 'emptyv2']
-PENDING = ('ok', 'invalid', 'connerr')
+OUTCOMES = ['ok', 'invalid', 'connerr', 'noconn', 'shut', 'same', 'emptyv2', 'deaderr', 'lost']
+PENDING = ('ok', 'invalid', 'connerr', 'deaderr')
 OLD, NEW = 'ks_old', 'ks_new'
 
 
@@ -94,6 +94,9 @@ class KsRun(object):
 
         class Conn(Base):
             def wait_for_responses(self, *msgs, **kw):        # blocking USE of a fresh connection: the server accepts it
+                if run.during_use is not None:                # ... and a keyspace switch lands during that round trip
+                    f, run.during_use = run.during_use, None
+                    f()
                 for m in msgs:
                     q = getattr(m, 'query', '')
                     if q.startswith('USE '):
@@ -108,6 +111,7 @@ class KsRun(object):
         self.session = KsSession(self.cluster)
         self.session.keyspace = OLD
         self.srv = {}
+        self.during_use = None
         self.pools, self.orig = [], []
         for i, o in enumerate(outcomes):
             host = KsHost(i)
@@ -123,6 +127,11 @@ class KsRun(object):
                 self.srv[conn] = conn.keyspace
             if o == 'shut':
                 pool.shutdown()
+            if o == 'lost':        # the connection died before the switch: borrowed stream errored, returned -> _replace queued
+                from cassandra.connection import ConnectionException
+                c, rid = pool.borrow_connection(1)
+                conn.defunct(ConnectionException('scripted failure'))
+                pool.return_connection(conn)
             self.session._pools[host] = pool
             self.pools.append(pool)
             self.orig.append(conn)
@@ -165,7 +174,12 @@ class KsRun(object):
         with conn.lock:
             conn.request_ids.append(rid)
         o = self.outcomes[i]
-        if o == 'ok':
+        if o == 'deaderr':       # the connection dies (heartbeat, socket error): error_all_requests answers the USE with ConnectionShutdown
+            from cassandra.connection import ConnectionException
+            conn._requests[rid] = (cb, None, None)
+            self.failed.append(i)
+            conn.defunct(ConnectionException('scripted failure'))
+        elif o == 'ok':
             self.srv[conn] = NEW
             cb(ResultMessage(kind=3))
         elif o == 'invalid':
@@ -184,20 +198,42 @@ class KsRun(object):
             return True
         return any(getattr(fn, '__self__', None) is p for fn, a in self.session.queue)
 
-    def reconnect(self, i):
+    def reconnect(self, i, during=None):
         p = self.pools[i]
+        self.during_use = during
         if isinstance(p, self.P.HostConnectionPool):
             p._add_conn_if_under_max()
         else:
             k = [j for j, (fn, a) in enumerate(self.session.queue) if getattr(fn, '__self__', None) is p][0]
             fn, a = self.session.queue.pop(k)
             fn(*a)
+        self.during_use = None
         self.orig[i] = self.current(i) or self.orig[i]
         self.snap(3)
 
 
 def pending_of(outcomes):
     return [i for i, o in enumerate(outcomes) if o in PENDING]
+
+
+def run_race(outcomes):
+    """one switch that lands while the first pool that lost its connection is re-connecting (during the blocking USE of its fresh
+    connection); then every pending pool answers in index order"""
+    r = KsRun(outcomes)
+    r.ops2 = None
+    ops = []
+    racer = [i for i in range(len(r.pools)) if r.can_reconnect(i) and not isinstance(r.pools[i], r.P.HostConnectionPool)]
+    if racer:
+        r.reconnect(racer[0], during=r.start)
+        ops += ['KStart', 'KReconnect %d%%nat' % racer[0]]
+    else:
+        r.start()
+        ops.append('KStart')
+    for i in r.pending():
+        r.complete(i)
+        ops.append('KComplete %d%%nat' % i)
+    r.ops1, r.obs1, r.calls1, r.failed1 = ops, list(r.obs), list(r.calls), list(r.failed)
+    return r
 
 
 def run_case(outcomes, order, reconnect=False, round2=None, perm2=None):
@@ -262,7 +298,8 @@ def oracle(r, order, complete1=True):
     return out
 
 
-OC = {'ok': 'POk', 'invalid': 'PInvalid', 'connerr': 'PConnErr', 'noconn': 'PNoConn', 'shut': 'PShut', 'same': 'PSame', 'emptyv2': 'PEmptyV2'}
+OC = {'ok': 'POk', 'invalid': 'PInvalid', 'connerr': 'PConnErr', 'noconn': 'PNoConn', 'shut': 'PShut', 'same': 'PSame', 'emptyv2': 'PEmptyV2',
+      'deaderr': 'PDeadErr', 'lost': 'PLost'}
 
 
 def coq_run(r, outcomes, round2):
